@@ -3194,6 +3194,13 @@ pub(crate) fn parse_toplevel_items_from_span(
     // it sent.
     let end_offset = end_offset.min(src.len());
 
+    // Likewise, don't assume the start offset is on a character
+    // boundary.
+    let mut offset = offset.min(end_offset);
+    while !src.is_char_boundary(offset) {
+        offset += 1;
+    }
+
     let (mut tokens, lex_errors) = lex_between(vfs_path, src, offset, end_offset);
     for error in lex_errors {
         diagnostics.push(error);
